@@ -63,6 +63,8 @@ pub struct SubStream {
     pub client: usize,
     pub tid: u64,
     pub msgs: Vec<(u64, SM)>,
+    /// simulated receipt times of `msgs`
+    pub times: Vec<u64>,
 }
 
 pub struct Parsed {
@@ -153,7 +155,7 @@ pub fn parse(history: &[Ev], protos: &BTreeMap<usize, u32>) -> Parsed {
                 }
                 p.clients.entry(*client).or_default();
             }
-            Ev::Recv { seq, client, msg } => {
+            Ev::Recv { seq, client, msg, at_us } => {
                 if let SM::Welcome(_) = msg {
                     continue;
                 }
@@ -175,9 +177,11 @@ pub fn parse(history: &[Ev], protos: &BTreeMap<usize, u32>) -> Parsed {
                                     client: *client,
                                     tid,
                                     msgs: vec![],
-                                })
-                                .msgs
-                                .push((*seq, msg.clone()));
+                                    times: vec![],
+                                });
+                            let ss = p.subs.get_mut(&(*client, tid)).expect("just inserted");
+                            ss.msgs.push((*seq, msg.clone()));
+                            ss.times.push(*at_us);
                         } else {
                             p.strays.push((*client, *seq, msg.clone()));
                         }
